@@ -140,10 +140,17 @@ where
     if request.method.eq_ignore_ascii_case("CONNECT") {
         let protocol = request.header("Proxy-Protocol", "tcp");
         // let host = request.header("Host", "0.0.0.0:0");
-        let target = request
-            .resource
-            .parse()
-            .with_context(|| format!("failed to parse target address: {}", request.resource))?;
+        let target = match request.resource.parse() {
+            Ok(target) => target,
+            Err(e) => {
+                // like the other malformed requests below: tell the client before closing
+                HttpResponse::new(400, "Bad Request")
+                    .write_to(socket)
+                    .await?;
+                return Err(e)
+                    .with_context(|| format!("failed to parse target address: {}", request.resource));
+            }
+        };
         if protocol.eq_ignore_ascii_case("tcp") {
             ctx_lock.set_target(target).set_callback(ConnectCallback);
         } else if protocol.eq_ignore_ascii_case("udp") {
